@@ -5,6 +5,7 @@ import Proofs.Block
 import Props.C01
 import Props.C17
 import Props.C05
+import Proofs.PacketStable
 /-
 C07 — A truncated block or message is never accepted.
 
@@ -125,3 +126,16 @@ theorem C07_frame_truncated (c : Frame.Codec) (hc : c.WF) (m : Nat) (payload p s
       omega
     rw [if_neg c1, if_neg c2, if_pos c3]
     exact ⟨_, Or.inr rfl⟩
+
+
+open Model.ServerStream Model.Send Proofs.PacketStable in
+/-- **whole server packets**: no proper prefix of an encoded server packet — a data / totals block (plain, or inside a
+compressed frame), a ProfileEvents / Log block, Progress, Profile, TableColumns, an exception chain of any depth,
+EndOfStream — is accepted by the client's packet parser (`packet()` + `decodeBlock` + `exception()`), at every
+revision, with compression on or off.  From the packet round trip and the stability of the parser. -/
+theorem C07_server_packet (cfg : Col.Cfg) (hcap : cfg.cap = none) (s : Conn) (sch : Schemas) (p : SPkt)
+    (h : SPkt.OK cfg s sch p) (pre suf : Bytes) (hsplit : encPkt s p = pre ++ suf) (hne : suf ≠ []) :
+    ∀ y r, decPkt s cfg sch pre ≠ .ok (y, r) := by
+  have hrt := decPkt_rt cfg hcap s sch p [] h
+  rw [List.append_nil] at hrt
+  exact truncation_not_ok (decPkt_stable s cfg sch) hrt hsplit hne
